@@ -51,7 +51,7 @@ PROPS = {
                 "documented refusals (attribute mismatch, cross-family, unsupported type); after every step every pool "
                 "object is compared with its immutable model value. Distinct = distinct pool signature (class, #terms, "
                 "attributes per object); non-trivial = run with >=3 steps touching >=2 objects or >=1 refusal.",
-        "probes": ["C16.same_object_both_sides", "C16.chain_length>=3", "C16.collapse_with_duplicates", "C16.commute_multi_term"],
+        "probes": ["C16.same_object_both_sides", "C16.chain_length>=3", "C16.collapse_with_duplicates", "C16.commute_multi_term", "C16.array_object_modified_in_place"],
         "components_real": ["tangelo FermionOperator, QubitOperator, QubitHamiltonian, MultiformOperator, do_commute",
                             "openfermion FermionOperator / QubitOperator (foreign operands)"],
         "components_stub": [],
@@ -92,7 +92,7 @@ PROPS = {
                 "generate_applied_gates per outcome string. Distinct = (mode, width, CMEASURE?, control kind, tree size, initial state?) "
                 "tuples; non-trivial = run with >=3 programs or >=1 scripted draw.",
         "probes": ["C10.nested_cmeasure_depth>=2", "C10.outcome_tree_fully_simulated", "C10.outcome_tree_fully_observed", "C10.leaf_forced_by_script",
-                   "C10.retry_exhausted", "C10.retry_attempts>1_likely", "C10.circuit_object_simulated_again"],
+                   "C10.retry_exhausted", "C10.retry_attempts>1_likely", "C10.circuit_object_simulated_again", "C10.circuit_object_relabelled_between_simulations"],
         "components_real": ["Backend.simulate, CirqSimulator.simulate_circuit (conditioned route, CMEASURE shot loop, cirq.run route, "
                             "density route, retry loop), perform_measurement, get_unitary_circuit_pieces, generate_applied_gates, "
                             "split_frequency_dict*, cirq Simulator / DensityMatrixSimulator"],
@@ -146,7 +146,7 @@ PROPS = {
                 "circuits for random, sparse, real and basis vectors in both orders. Phases are generated and compared as integers "
                 "k/2^m. Distinct = (step kind, problem kind, register size, state qubits, shots, scripted?) tuples; non-trivial = "
                 "run with >=3 steps of >=2 kinds or >=1 scripted draw.",
-        "probes": ["C20.shots_after_first_reuse_controller", "C20.second_simulate_on_same_solver"],
+        "probes": ["C20.shots_after_first_reuse_controller", "C20.second_simulate_on_same_solver", "C20.phase_register_below_state_register"],
         "components_real": ["IterativeQPESolver + IterativeQPEControl, QPESolver, TrotterSuzukiUnitary, CircuitUnitary, trotterize, "
                             "get_qft_circuit, StateVector, CirqSimulator CMEASURE shot loop, cirq"],
         "components_stub": [],
@@ -164,7 +164,8 @@ PROPS = {
                 "(reference simulator, |0..0> and two seeded random states, up to global phase) with a fresh instance built with the "
                 "final values, after every rejected vector with fresh(last accepted). Distinct = (ansatz, molecule, mapping, ordering, "
                 "step kind) tuples; non-trivial = run with >=3 steps of >=2 kinds or >=1 rejected vector.",
-        "probes": ["C07.in_place_path", "C07.rebuild_path", "C07.zero_free_vector", "C07.k>=3", "C07.random_keyword_through_seam", "C07.adapt_operator_added"],
+        "probes": ["C07.in_place_path", "C07.rebuild_path", "C07.zero_free_vector", "C07.k>=3", "C07.random_keyword_through_seam", "C07.adapt_operator_added",
+                   "C07.update_with_already_recorded_vector", "C07.update_with_edited_var_params_object"],
         "components_real": ["UCCSD (RHF/ROHF/UHF), RUCC(1/3), UpCCGSD, UCCGD, HEA, QMF, QCC, ILC, VSQS, pUCCD, ADAPTAnsatz, VariationalCircuitAnsatz, "
                             "fermion_to_qubit_mapping, SecondQuantizedMolecule + PySCF (data producers)"],
         "components_stub": [],
@@ -183,7 +184,8 @@ PROPS = {
                 "circuit and the Hamiltonian snapshot taken at build time, the solver's Hamiltonian is compared with that snapshot after "
                 "every step and the energy is re-evaluated after every refused call. Distinct = (ansatz, molecule, mapping, ordering, "
                 "step kind, operator) tuples; non-trivial = run with >=3 steps of >=2 kinds or >=1 refused call.",
-        "probes": ["C08.energy_after_refused_call", "C08.symmetry_expectation_checked", "C08.deflation_overlap_checked"],
+        "probes": ["C08.energy_after_refused_call", "C08.symmetry_expectation_checked", "C08.deflation_overlap_checked",
+                   "C08.hamiltonian_object_modified_in_place_between_evaluations"],
         "components_real": ["VQESolver (build, energy_estimation, operator_expectation, get_rdm, simulate), all built-in ansaetze, Backend / "
                             "CirqSimulator expectation routes, fermion_to_qubit_mapping + SecondQuantizedMolecule + PySCF (data producers)"],
         "components_stub": ["the classical optimiser is replaced by a 1-3 point evaluator through the public 'optimizer' option"],
